@@ -29,6 +29,7 @@ CONSTANTS
     OptLen,      \* family A strings up to this length also get the stop-handling operations
     MaxCodons,   \* family B: 0..MaxCodons codons drawn from RichCodons, followed by a tail of 0, 1 or 2 bases
     PairCodons,  \* family P: pairs of family-B-like strings of exactly this many codons (collections of 2 sequences); 0 = none
+    OrfFamily,   \* BOOLEAN: include the single-ORF family (select_translatable / best_frame)
     LongLens,    \* family L: one generated base string of each of these lengths (around 2^8 / 2^16 codons and bases)
     SymLen       \* IUPAC strings (symbols, gap, missing) of length 0..SymLen for complement / rc
 
@@ -193,6 +194,34 @@ CollHasStop(id, ss) == \E i \in 1..Len(ss) : HasTerminalStop(id, ss[i])
 CollGetTranslationOutcomes(id, ss, inc, trim, iok) ==
     [i \in 1..Len(ss) |-> GetTranslationOutcomes(id, ss[i], inc, trim, iok)]
 
+(* Reading-frame selection (app.translate: best_frame, select_translatable).                       *)
+(* Frames are numbered 1, 2, 3 on the given strand and -1, -2, -3 on the reverse complement, each  *)
+(* counted from the 5' end of ITS OWN strand.  A frame is acceptable when it has no stop, or a      *)
+(* single stop that is terminal.  best_frame returns an acceptable frame (the statement does not     *)
+(* rank several acceptable frames: any of them is allowed) and refuses when there is none.           *)
+(* select_translatable returns the in-frame part of that strand, whole codons only, the terminal    *)
+(* stop codon removed when trim_terminal_stop.                                                        *)
+Abs(f) == IF f < 0 THEN 0 - f ELSE f
+StrandOf(s, f) == IF f < 0 THEN Rc(s) ELSE s
+AcceptableFrame(id, s, f) ==
+    LET p == Translate(id, StrandOf(s, f), Abs(f) - 1)
+        q == IF Len(p) > 0 /\ p[Len(p)] = "*" THEN SubSeq(p, 1, Len(p) - 1) ELSE p
+    IN ~HasStar(q)
+FrameChoices(allow_rc) == {1, 2, 3} \cup (IF allow_rc THEN {0 - 1, 0 - 2, 0 - 3} ELSE {})
+BestFrames(id, s, allow_rc) == {f \in FrameChoices(allow_rc) : AcceptableFrame(id, s, f)}
+InFrame(id, s, f, trim) ==
+    LET x == StrandOf(s, f)
+        k == Abs(f) - 1
+        y == SubSeq(x, k + 1, k + 3 * NCodons(x, k))
+    IN IF trim THEN TrimStop(id, y) ELSE y
+(* frame = 0 stands for "not given" (best_frame decides); 1..3 is the caller's frame on the given strand *)
+SelectFrames(id, s, allow_rc, frame) ==
+    IF frame = 0 THEN BestFrames(id, s, allow_rc)
+    ELSE IF AcceptableFrame(id, s, frame) THEN {frame} ELSE {}
+(* allowed outcomes: <<frame, returned nucleotides, their translation>>; none = refused *)
+SelectOutcomes(id, s, allow_rc, frame, trim) ==
+    {<< <<f>>, InFrame(id, s, f, trim), Translate(id, InFrame(id, s, f, TRUE), 0) >> : f \in SelectFrames(id, s, allow_rc, frame)}
+
 -----------------------------------------------------------------------------
 (* 4. IUPAC nucleotide symbols (IUPAC-IUB 1984), per molecular type          *)
 
@@ -264,6 +293,17 @@ GenBase(i) == LET a == i % 1013  b == i % 97  c == i % 31
               IN Bases[(((a * a) \div 3 + (b * b) \div 5 + c * c + (i \div 7)) % 4) + 1]   \* all 64 codons occur within 1000 codons
 LongSeq(n) == [i \in 1..n |-> GenBase(i)]
 
+(* single-ORF family: exactly one of the six frames is free of internal stops (in codes 1 and 2).   *)
+(* The unit AGT TAT CTA ACT (S Y L T) has TAA / TAG in its two other plus frames and in all three  *)
+(* frames of its reverse complement.  Bodies: two units; two units + terminal TAA; unit unit TAA unit *)
+(* (no acceptable frame).  One or two extra bases in front and behind put the ORF in every frame   *)
+(* and give every length mod 3; each string is also taken reverse complemented (ORF on the minus   *)
+(* strand).  UniqueFrameFamily below checks these claims.                                           *)
+OrfUnit == <<"A","G","T", "T","A","T", "C","T","A", "A","C","T">>
+OrfBodies == {OrfUnit \o OrfUnit, OrfUnit \o OrfUnit \o <<"T","A","A">>, OrfUnit \o OrfUnit \o <<"T","A","A">> \o OrfUnit}
+OrfPlus == {pre \o b \o tl : pre \in {<<>>, <<"C">>, <<"C","C">>}, b \in OrfBodies, tl \in {<<>>, <<"G">>, <<"G","G">>}}
+OrfSeqs == OrfPlus \cup {[i \in 1..Len(s) |-> CompBase(s[Len(s) + 1 - i])] : s \in OrfPlus}
+
 NoSeq == <<>>
 NoSet == {}
 In(kind, code, mt, s, s2, set) == [kind |-> kind, code |-> code, mt |-> mt, s |-> s, s2 |-> s2, set |-> set]
@@ -274,6 +314,7 @@ SymPool == {"A","C","G","T","U","R","Y","W","S","K","M","B","D","H","V","N","-",
 FamilyKeys ==
     {<<"codon", id, "dna">> : id \in TableCodes} \cup {<<"code", id, "dna">> : id \in TableCodes}
     \cup {<<"seqA", id, "dna">> : id \in SeqCodes} \cup {<<"seqB", id, "dna">> : id \in SeqCodes}
+    \cup {<<"seqU", id, "dna">> : id \in (IF OrfFamily THEN SeqCodes ELSE {})}
     \cup {<<"seqL", id, "dna">> : id \in (IF LongLens # {} THEN SeqCodes ELSE {})}
     \cup {<<"pair", id, "dna">> : id \in (IF PairCodons > 0 THEN SeqCodes ELSE {})}
     \cup {<<"sym", 0, mt>> : mt \in MolTypes} \cup {<<"set", 0, mt>> : mt \in MolTypes}
@@ -286,6 +327,7 @@ Family(k) ==
       [] kind = "code"  -> {In(kind, id, mt, NoSeq, NoSeq, NoSet)}
       [] kind = "seqA"  -> {In(kind, id, mt, s, NoSeq, NoSet) : s \in StrOver(BaseSet, MaxLen)}
       [] kind = "seqB"  -> {In(kind, id, mt, s, NoSeq, NoSet) : s \in RichSeqs(MaxCodons)}
+      [] kind = "seqU"  -> {In(kind, id, mt, s, NoSeq, NoSet) : s \in OrfSeqs}
       [] kind = "seqL"  -> {In(kind, id, mt, LongSeq(n), NoSeq, NoSet) : n \in LongLens}
       [] kind = "pair"  -> {In(kind, id, mt, s, t, NoSet) : s \in RichExact(PairCodons), t \in RichExact(PairCodons)}
       [] kind = "sym"   -> {In(kind, 0, mt, <<x>>, NoSeq, NoSet) : x \in SymPool}
@@ -300,7 +342,8 @@ Valid(i) ==
     /\ i.kind = "set" => i.set \subseteq MtBases(i.mt)
 
 IsLong == inp.kind = "seqL"
-IsSeq == inp.kind \in {"seqA", "seqB"} \/ (IsLong /\ Len(inp.s) <= 4000)   \* the laws are not re-checked on the longest strings
+IsOrf == inp.kind = "seqU"
+IsSeq == inp.kind \in {"seqA", "seqB", "seqU"} \/ (IsLong /\ Len(inp.s) <= 4000)   \* the laws are not re-checked on the longest strings
 WithOptions == inp.kind = "seqB" \/ (IsLong /\ Len(inp.s) <= 4000) \/ (inp.kind = "seqA" /\ Len(inp.s) <= OptLen)
 
 
@@ -347,6 +390,14 @@ StopOpsA(strict) ==
     StopOpsT(strict)
     /\ Log("StopOps", <<strict>>, [has  |-> HasStopOutcome(inp.code, inp.s, strict),
                                     trim |-> TrimStopOutcome(inp.code, inp.s, strict)])
+
+(* app.translate.select_translatable(gc, allow_rc, trim_terminal_stop, frame) then translate_seqs; best_frame(gc, allow_rc) *)
+SelectT(allow_rc, frame, trim) == IsOrf /\ Same
+SelectA(allow_rc, frame, trim) ==
+    SelectT(allow_rc, frame, trim)
+    /\ Log("Select", <<allow_rc, frame, trim>>,
+           [allowed |-> SelectOutcomes(inp.code, inp.s, allow_rc, frame, trim),
+            best    |-> BestFrames(inp.code, inp.s, TRUE)])
 
 (* collections of two equal-length sequences *)
 PairT(inc, trim) == inp.kind = "pair" /\ Same
@@ -406,6 +457,7 @@ Next == \/ ChooseBucket
         \/ FramesA
         \/ \E inc, trim, iok \in BOOLEAN : GetTranslationA(inc, trim, iok)
         \/ \E strict \in BOOLEAN : StopOpsA(strict)
+        \/ \E allow_rc, trim \in BOOLEAN, frame \in 0..3 : SelectA(allow_rc, frame, trim)
         \/ \E inc, trim \in BOOLEAN : PairA(inc, trim)
         \/ PairStopA
         \/ SymA
@@ -414,12 +466,12 @@ Next == \/ ChooseBucket
         \/ ProtSymA
 
 TypeOK ==
-    /\ inp.kind \in {"start", "bucket", "codon", "code", "seqA", "seqB", "seqL", "pair", "sym", "set", "str", "psym"}
+    /\ inp.kind \in {"start", "bucket", "codon", "code", "seqA", "seqB", "seqU", "seqL", "pair", "sym", "set", "str", "psym"}
     /\ inp.code \in AllCodes \cup {0}
     /\ inp.mt \in MolTypes \cup {"protein"}
     /\ \A i \in 1..Len(inp.s) : inp.s[i] \in SymPool \cup ProtSyms
     /\ inp.set \subseteq SymPool
-    /\ inp.kind \in {"seqA", "seqB", "seqL", "pair", "codon"} =>
+    /\ inp.kind \in {"seqA", "seqB", "seqU", "seqL", "pair", "codon"} =>
           /\ \A i \in 1..Len(inp.s) : inp.s[i] \in BaseSet
           /\ \A i \in 1..Len(inp.s2) : inp.s2[i] \in BaseSet
     /\ inp.kind \notin {"start", "bucket"} => Valid(inp)
@@ -483,6 +535,21 @@ AnticodonFrameLaw ==
 LongLaw ==
     IsLong => \A k \in 0..2 : /\ Len(Translate(inp.code, inp.s, k)) = (Len(inp.s) - k) \div 3
                                /\ Len(Translate(inp.code, Rc(inp.s), k)) = (Len(inp.s) - k) \div 3
+
+(* the single-ORF family is what it claims: one acceptable frame of six (or none for the interrupted *)
+(* body), on the strand and in the frame and length class it was built for; selecting it gives a      *)
+(* stop-free protein that is one of the six frames up to its terminal stop                            *)
+UniqueFrameFamily ==
+    IsOrf =>
+        LET best == BestFrames(inp.code, inp.s, TRUE) IN
+        /\ Cardinality(best) <= 1
+        /\ \A f \in best :
+              LET pep == Translate(inp.code, InFrame(inp.code, inp.s, f, TRUE), 0)
+                  six == SixFrames(inp.code, inp.s)
+                  fr  == IF f < 0 THEN six.minus[Abs(f)] ELSE six.plus[f]
+              IN /\ ~HasStar(pep)
+                 /\ Len(pep) >= 8
+                 /\ pep = fr \/ pep \o <<"*">> = fr
 
 (* the three stop rules fit together *)
 StopLaws ==
